@@ -37,8 +37,9 @@ namespace MlModel.Resume
 structure Recoverable (α : Type) where
   It : Type
   St : Type
-  /-- `__next__`: `none` = `StopIteration` -/
-  next : It → Option (α × It)
+  /-- `__next__`: `none` = `StopIteration`; the iterator object may have changed even then
+  (`DataIterator` keeps the positions it skipped) -/
+  next : It → Option α × It
   /-- the `state` property -/
   state : It → St
   /-- `fresh_iterator.from_state(st)` -/
@@ -50,8 +51,8 @@ def takeN {α : Type} (R : Recoverable α) : Nat → R.It → List α × R.It
   | 0, it => ([], it)
   | k + 1, it =>
     match R.next it with
-    | none => ([], it)
-    | some (a, it') => let (as, it'') := takeN R k it'; (a :: as, it'')
+    | (none, it') => ([], it')
+    | (some a, it') => let r := takeN R k it'; (a :: r.1, r.2)
 
 /-! ## `ShardConfig` chains and `SequenceDataSource` -/
 
@@ -105,12 +106,12 @@ structure SeqIt where
 def Src.iterate (s : Src) : SeqIt := ⟨s, s.start⟩
 
 /-- `SequenceIterator.__next__` over `data[start:end]`. -/
-def SeqIt.next {α : Type} (data : List α) (it : SeqIt) : Option (α × SeqIt) :=
+def SeqIt.next {α : Type} (data : List α) (it : SeqIt) : Option α × SeqIt :=
   if it.index < it.src.stop then
     match data[it.index]? with
-    | some a => some (a, { it with index := it.index + 1 })
-    | none => none
-  else none
+    | some a => (some a, { it with index := it.index + 1 })
+    | none => (none, it)
+  else (none, it)
 
 /-- `SequenceIterator.state` (repaired, F1): `config.state.start_index + _index - config.start`. -/
 def SeqIt.state (it : SeqIt) : Chain :=
@@ -162,13 +163,16 @@ def iterNextAux {α : Type} (data : List α) (cfg : Cfg) : Nat → Nat → Optio
       if i < cfg.off ∨ i % cfg.num ≠ cfg.idx then iterNextAux data cfg fuel (i + 1)
       else (some a, i + 1)
 
-def IterIt.next {α : Type} (data : List α) (it : IterIt) : Option (α × IterIt) :=
-  match iterNextAux data it.cfg (data.length - it.index + 1) it.index with
-  | (some a, i) => some (a, { it with index := i })
-  | (none, _) => none
+def IterIt.next {α : Type} (data : List α) (it : IterIt) : Option α × IterIt :=
+  let r := iterNextAux data it.cfg (data.length - it.index + 1) it.index
+  (r.1, { it with index := r.2 })
 
-/-- `DataIterator.state`: `dc.replace(config.state, start_index=_index)` -/
-def IterIt.state (it : IterIt) : Cfg := { it.cfg with off := it.index }
+/-- `DataIterator.state` (repaired): `start_index = max(_index, config.state.start_index)` —
+`_index` catches up with `start_index` only on the first `next()`. -/
+def IterIt.state (it : IterIt) : Cfg := { it.cfg with off := max it.index it.cfg.off }
+
+/-- the unrepaired `dc.replace(config.state, start_index=_index)` (witness only) -/
+def IterIt.stateOrig (it : IterIt) : Cfg := { it.cfg with off := it.index }
 
 /-- `ShardedIterable.from_state(st).iterate()`; `__post_init__` rejects `num_shards < 1`. -/
 def IterIt.restore (st : Cfg) : Except ErrKind IterIt :=
@@ -181,6 +185,9 @@ def iterRec {α : Type} (data : List α) : Recoverable α where
   state := IterIt.state
   restore := IterIt.restore
   size := fun it => data.length - it.index
+
+def iterRecOrig {α : Type} (data : List α) : Recoverable α :=
+  { iterRec data with state := IterIt.stateOrig }
 
 /-! ## Histories -/
 
@@ -280,25 +287,26 @@ def PipeIt.fresh (R : Recoverable α) (P : PipeDef α β T X S Res) (src : R.It)
 /-- `_RunnerIterator.__next__`: pull the generator chain until it yields, then
 `agg_state = update_state(agg_state, batch_output)`. -/
 def PipeIt.nextAux (R : Recoverable α) (P : PipeDef α β T X S Res) :
-    Nat → PipeIt R β T S → Option (β × PipeIt R β T S)
+    Nat → PipeIt R β T S → Option β × PipeIt R β T S
   | 0, p =>
     match p.pending with
-    | b :: rest => some (b, { p with pending := rest, agg := P.m.add p.agg (P.batchOf b) })
-    | [] => none
+    | b :: rest => (some b, { p with pending := rest, agg := P.m.add p.agg (P.batchOf b) })
+    | [] => (none, p)
   | fuel + 1, p =>
     match p.pending with
-    | b :: rest => some (b, { p with pending := rest, agg := P.m.add p.agg (P.batchOf b) })
+    | b :: rest => (some b, { p with pending := rest, agg := P.m.add p.agg (P.batchOf b) })
     | [] =>
-      if p.done then none
+      if p.done then (none, p)
       else
         match R.next p.src with
-        | none => PipeIt.nextAux R P fuel { p with pending := P.tr.finish p.t, done := true }
-        | some (a, src') =>
+        | (none, src') =>
+          PipeIt.nextAux R P fuel { p with src := src', pending := P.tr.finish p.t, done := true }
+        | (some a, src') =>
           let r := P.tr.step p.t a
           PipeIt.nextAux R P fuel { p with src := src', t := r.1, pending := r.2 }
 
 def PipeIt.next (R : Recoverable α) (P : PipeDef α β T X S Res) (p : PipeIt R β T S) :
-    Option (β × PipeIt R β T S) :=
+    Option β × PipeIt R β T S :=
   PipeIt.nextAux R P (R.size p.src + 2) p
 
 /-- `_RunnerIterator.state`: `(input_states, deepcopy(agg_state))` -/
@@ -316,8 +324,8 @@ def pipeTakeN (R : Recoverable α) (P : PipeDef α β T X S Res) :
   | 0, p => ([], p)
   | k + 1, p =>
     match PipeIt.next R P p with
-    | none => ([], p)
-    | some (b, p') => let r := pipeTakeN R P k p'; (b :: r.1, r.2)
+    | (none, p') => ([], p')
+    | (some b, p') => let r := pipeTakeN R P k p'; (b :: r.1, r.2)
 
 /-- an event of the surviving timeline: an output delivered to the consumer, or rows that were
 held by the chain at a checkpoint from which the pipeline was later restored (never delivered) -/
@@ -436,8 +444,8 @@ def ParRun.step (R : Recoverable α) (f : α → List β) (add : S → β → S)
     | none => .ok r
     | some it =>
       match R.next it with
-      | none => .ok r
-      | some (a, it') =>
+      | (none, it') => .ok { r with s := { r.s with cursors := r.s.cursors.set i it' } }
+      | (some a, it') =>
         .ok { r with s := { r.s with cursors := r.s.cursors.set i it', buf := r.s.buf ++ f a } }
   | .deliver j =>
     match r.s.buf[j]? with
